@@ -3,13 +3,17 @@
 package checks
 
 import (
+	"encoding/json"
 	"fmt"
 	"os"
 	"path/filepath"
 	"regexp"
+	"sort"
 	"strings"
 	"sync"
 	"time"
+
+	"github.com/compose-spec/compose-go/v2/types"
 
 	"verif/harness/internal/core"
 )
@@ -39,6 +43,7 @@ func C04(c *core.Ctx) {
 		_ = os.WriteFile(filepath.Join(wd, f), []byte("FROM_"+strings.ReplaceAll(f, ".", "_")+"=1\n"), 0o644)
 	}
 	n, invalid := 0, 0
+	shared, sharedInvalid := 0, 0
 	invalidBy := map[string]int{} // attribute and reason of the cases that load in no form (they test nothing)
 	attrs := map[string]int{}
 	var mu sync.Mutex
@@ -94,6 +99,42 @@ func C04(c *core.Ctx) {
 			if db != dc {
 				c.Report(core.Finding{Sig: "merge-documents:" + attr, Detail: fmt.Sprintf("%s: base + overrides loaded as `---` documents differ from the target: %s", attr, firstDiff(db, dc)), Replay: rep})
 			}
+			// the tagged override written once and shared by three services through a YAML anchor: each of the three is
+			// the service of the specification's target
+			if da == dc && len(overs) == 1 {
+				if sb, so, st, ok := c04Shared(cs["base"], asList(cs["overs"])[0], cs["target"], idx); ok {
+					var ps *types.Project
+					var es error
+					if idx%2 == 0 {
+						ps, es = safeLoad(wd, nil, []namedDoc{{Name: wd + "/base.yaml", Content: sb}, {Name: wd + "/over1.yaml", Content: so}})
+					} else {
+						ps, es = safeLoad(wd, nil, []namedDoc{{Name: wd + "/multi.yaml", Content: sb + "\n---\n" + so + "\n"}})
+					}
+					pt, et := safeLoad(wd, nil, []namedDoc{{Name: wd + "/target.yaml", Content: st}})
+					mu.Lock()
+					shared++
+					if et != nil {
+						sharedInvalid++
+					}
+					mu.Unlock()
+					rep2 := map[string]interface{}{"attribute": attr, "base": sb, "overrides": []string{so}, "target": st}
+					switch {
+					case et != nil:
+					case es != nil:
+						c.Report(core.Finding{Sig: "shared-rejected:" + attr, Detail: fmt.Sprintf("%s: an override shared by three services through an anchor is rejected (%v) although the target loads", attr, es), Replay: rep2})
+					default:
+						if ps.Extensions != nil {
+							delete(ps.Extensions, "x-shared")
+							if len(ps.Extensions) == 0 {
+								ps.Extensions = pt.Extensions
+							}
+						}
+						if ds, dt := projDump(ps), projDump(pt); ds != dt {
+							c.Report(core.Finding{Sig: "merge-shared:" + attr, Detail: fmt.Sprintf("%s: base %s + override %s (one tagged value shared by three services through an anchor) differ from the target: %s", attr, sb, so, firstDiff(ds, dt)), Replay: rep2})
+						}
+					}
+				}
+			}
 		}
 		return nil
 	})
@@ -109,12 +150,129 @@ func C04(c *core.Ctx) {
 		c.Logf("loads in no form (%d cases): %s", v, k)
 	}
 	c.Set("cases_per_attribute", attrs)
+	c.Set("shared_anchor_cases", shared)
+	c.Set("shared_anchor_cases_target_invalid", sharedInvalid)
+	c.Logf("%d cases also with the tagged override shared by three services through an anchor (%d of them with a target that does not load)", shared, sharedInvalid)
 	c.Set("exhaustive", true)
 	c.Logf("%d merge cases replayed (%d invalid in every form)", n, invalid)
 	if invalid*5 > n {
 		c.Drift(fmt.Sprintf("%d of %d generated cases do not load in any form: the generator has drifted from the schema", invalid, n))
 	}
 	c.Set("rule", "a case is (attribute, base value, override values) over the attribute table of MC_Merge.tla (all ordered pairs of alternative values, with !override and !reset, triples in thorough); three real loads each; non-trivial when the target differs from the base")
+}
+
+// c04HasTag: whether a model value carries a !override / !reset tag anywhere
+func c04HasTag(v interface{}) bool {
+	m := asMap(v)
+	if _, ok := m["tag"]; ok {
+		return true
+	}
+	switch asStr(m["t"]) {
+	case "l":
+		for _, x := range asList(m["v"]) {
+			if c04HasTag(x) {
+				return true
+			}
+		}
+	case "m":
+		for _, x := range asMap(m["v"]) {
+			if c04HasTag(x) {
+				return true
+			}
+		}
+	}
+	return false
+}
+
+// c04Shared rewrites a case whose override tags something inside one service S: base and target get two more copies of S, and
+// the override defines the content once under x-shared and gives it to the three services - through the merge key (`<<: *sh`),
+// or, when the tag sits on an attribute of S itself, by anchoring that attribute's tagged value and aliasing it.
+func c04Shared(base, over, target interface{}, idx int) (sb, so, st string, ok bool) {
+	osvcs := asMap(asMap(asMap(asMap(over)["v"])["services"])["v"])
+	if len(osvcs) != 1 {
+		return
+	}
+	var name string
+	for k := range osvcs {
+		name = k
+	}
+	body := osvcs[name]
+	if asStr(asMap(body)["t"]) != "m" || !c04HasTag(body) {
+		return
+	}
+	if _, tagged := asMap(body)["tag"]; tagged {
+		return
+	}
+	clone := func(doc interface{}) (string, bool) {
+		d := asMap(doc)
+		top := map[string]interface{}{}
+		for k, v := range asMap(d["v"]) {
+			top[k] = v
+		}
+		svcs := asMap(asMap(top["services"])["v"])
+		sv, has := svcs[name]
+		if !has {
+			return "", false
+		}
+		ns := map[string]interface{}{}
+		for k, v := range svcs {
+			ns[k] = v
+		}
+		ns[name+"-2"], ns[name+"-3"] = sv, sv
+		top["services"] = map[string]interface{}{"t": "m", "v": ns}
+		return yamlOf(map[string]interface{}{"t": "m", "v": top}), true
+	}
+	var okb, okt bool
+	if sb, okb = clone(base); !okb {
+		return
+	}
+	if st, okt = clone(target); !okt {
+		return
+	}
+	var rest []string
+	for k, v := range asMap(asMap(over)["v"]) {
+		if k != "services" {
+			q, _ := json.Marshal(k)
+			rest = append(rest, string(q)+": "+yamlOf(v))
+		}
+	}
+	sort.Strings(rest)
+	names := []string{name, name + "-2", name + "-3"}
+	var shared string
+	var uses []string
+	direct := ""
+	for k, v := range asMap(asMap(body)["v"]) {
+		if _, tagged := asMap(v)["tag"]; tagged && (direct == "" || k < direct) {
+			direct = k
+		}
+	}
+	if direct != "" && idx%4 >= 2 {
+		// x-shared: &sh !override V ; services: {S: {attr: *sh, ...}, ...}
+		shared = "&sh " + yamlOf(asMap(asMap(body)["v"])[direct])
+		var others []string
+		for k, v := range asMap(asMap(body)["v"]) {
+			if k != direct {
+				q, _ := json.Marshal(k)
+				others = append(others, string(q)+": "+yamlOf(v))
+			}
+		}
+		sort.Strings(others)
+		q, _ := json.Marshal(direct)
+		one := "{" + strings.Join(append([]string{string(q) + ": *sh "}, others...), ", ") + "}"
+		for _, n := range names {
+			qn, _ := json.Marshal(n)
+			uses = append(uses, string(qn)+": "+one)
+		}
+	} else {
+		shared = "&sh " + yamlOf(body)
+		for _, n := range names {
+			qn, _ := json.Marshal(n)
+			uses = append(uses, string(qn)+": {<<: *sh }")
+		}
+	}
+	parts := append([]string{"\"x-shared\": " + shared}, rest...)
+	parts = append(parts, "\"services\": {"+strings.Join(uses, ", ")+"}")
+	return sb, "{" + strings.Join(parts, ", ") + "}", st, true
 }
 
 var reCasePath = regexp.MustCompile(`validating \S+: |\[[0-9,]+\]`)
